@@ -56,6 +56,64 @@ def run_and_validate(rep, wd, descs_path, label, n_expected, timeout=3600, trace
     return events, bad
 
 
+def run_and_validate_sharded(rep, wd, descs_path, label, shards=8, timeout=3600):
+    """Same as run_and_validate but splits the descriptor file into contiguous shards validated by
+    parallel TLC processes (a descriptor's chunks never straddle shards). Returns (events, bad)."""
+    from concurrent.futures import ThreadPoolExecutor
+    rows = common.read_ndjson(descs_path)
+    shards = max(1, min(shards, len(rows)))
+    per = (len(rows) + shards - 1) // shards
+    parts = []
+    for s in range(shards):
+        part = rows[s * per:(s + 1) * per]
+        if not part:
+            continue
+        pth = os.path.join(wd, "%s.s%d.descs.ndjson" % (label, s))
+        common.write_ndjson(pth, part)
+        parts.append((s, pth, len(part)))
+    common.build_harness()
+
+    def one(arg):
+        s, pth, cnt = arg
+        sub = common.Report(rep.pid, rep.tier, rep.level)
+        ev, bad = _run_validate_any(sub, wd, pth, "%s.s%d" % (label, s), timeout)
+        return sub, ev, bad
+
+    events, bad = [], []
+    with ThreadPoolExecutor(max_workers=min(12, len(parts))) as ex:
+        for sub, ev, b in ex.map(one, parts):
+            base = len(events)
+            events += ev
+            bad += [(i + base, kind) for i, kind in b]
+            rep.states += sub.states
+            rep.transitions += sub.transitions
+            rep.traces += sub.traces
+    rep.extra.setdefault("tlc_runs", []).append({"run": "trace:" + label, "shards": len(parts), "events": len(events)})
+    return events, bad
+
+
+def _run_validate_any(rep, wd, descs_path, label, timeout):
+    """like run_and_validate but the number of events is whatever the harness expands to"""
+    ev_path = os.path.join(wd, label + ".events.ndjson")
+    p = common.harness(["hal", descs_path, ev_path], env={"VERIF_SEED": common.seed()}, timeout=timeout)
+    if p.returncode != 0:
+        raise ToolError("harness hal failed rc=%d\n%s" % (p.returncode, p.stdout[-3000:]))
+    events = common.read_ndjson(ev_path)
+    r = common.tlc("Hal/HalTrace", env={"TRACE": ev_path}, workers=1, wd=wd, timeout=timeout, xmx="4g")
+    common.tlc_must(r, "trace " + label)
+    v = r.printed("VERDICT")
+    if not r.ok or not v:
+        raise ToolError("trace validation of %s did not complete:\n%s" % (label, r.out[-3000:]))
+    n = int(v[0].split(", ", 1)[0])
+    if n != len(events) or r.distinct != n + 1:
+        raise ToolError("trace %s: TLC consumed %d of %d events" % (label, r.distinct - 1, len(events)))
+    bad = [(k - 1, kind) for k, kind in json.loads(json.loads(v[0].split(", ", 1)[1]))]
+    rep.states += r.distinct
+    rep.transitions += r.generated
+    rep.traces += n
+    return events, bad
+
+
 BE = ["FFT64Ref", "FFT64Avx", "NTT120Ref", "NTT120Avx"]
 
 
@@ -66,6 +124,16 @@ def describe(e):
     odd = sorted({BE[w["b"]] for o in outs if o is not maj for w in o["who"]})
     panics = sorted({o["panic"][:80] for o in outs if o["panic"]})
     key = "%s n=%d na=%d rs=%d as=%d" % (e["op"], e["n"], e["na"], e["rs"], len(e["ins"]["a"]))
+    op = e["op"].replace("big_", "")
+    if op.startswith(("normalize", "lsh", "rsh")):
+        p = e["p"]
+        rb, ab, k = p["rb"], p["ab"], p["k"]
+        src = e["ins"]["r"] if op in ("normalize_assign", "lsh_assign", "rsh_assign") else e["ins"]["a"]
+        off = k if op.startswith("normalize") else (k if op.startswith("lsh") else -k)
+        unn = any(not (-(1 << (ab - 1)) <= x < (1 << (ab - 1))) for l in src for x in l)
+        steps = -((off) // rb) if off < 0 else 0  # ceil(-off / rb)
+        key += " rb=%d ab=%d cross=%d unn=%d gap=%d k0=%d over=%d" % (
+            rb, ab, int(rb != ab), int(unn), int(steps > e["rs"]), int(k == 0), int(op.endswith("_assign") and steps > e["rs"]))
     if odd:
         key += " odd=" + ",".join(odd)
     if e.get("frame_bad"):
@@ -92,3 +160,43 @@ def report(rep, events, bad, kinds, corpus):
         small["outs"] = e["outs"][:3]
         rep.violation(key, "HAL event rejected by HalTrace (%s): %s" % (kind, key), {"corpus": corpus, "kind": kind, "event": small, "seed": common.seed()})
     return nbad
+
+
+def binding_selftest(rep, wd, events_path, label, k=6):
+    """Demonstrate the binding: corrupt one logged field in k events and drop one event of an
+    enumerated descriptor; TLC must reject exactly those. Raises ToolError when it does not."""
+    import random
+    rows = common.read_ndjson(events_path)
+    rnd = random.Random(common.seed() * 7919 + 13)
+    cands = [i for i, e in enumerate(rows)
+             if all(o["panic"] == "" and o["d"] for o in e["outs"]) and len(e["outs"]) == 1
+             and (not e["op"].replace("big_", "").startswith(("normalize", "lsh", "rsh")) or e["rs"] * e["p"]["rb"] >= 4)]
+    if not cands:
+        return 0
+    pick = sorted(rnd.sample(cands, min(k, len(cands))))
+    sub = []
+    expect = []
+    for n_, i in enumerate(pick):
+        e = json.loads(json.dumps(rows[i]))
+        e["alpha"] = []
+        e["did"], e["chunk"], e["nchunks"] = n_ + 1, 0, 1
+        good = json.loads(json.dumps(e))
+        e["outs"][0]["d"][-1][0] += 3
+        sub.append(good)
+        sub.append(e)
+        expect.append(2 * n_ + 2)
+    path = os.path.join(wd, label + ".selftest.ndjson")
+    common.write_ndjson(path, sub)
+    r = common.tlc("Hal/HalTrace", env={"TRACE": path}, workers=1, wd=wd, timeout=600)
+    common.tlc_must(r, "selftest " + label)
+    v = r.printed("VERDICT")
+    if not v:
+        raise ToolError("binding self-test did not complete:\n" + r.out[-2000:])
+    bad = json.loads(json.loads(v[0].split(", ", 1)[1]))
+    got = sorted({b[0] for b in bad if b[1] in ("sem", "sem1")})
+    # the uncorrupted copies may legitimately be rejected only if they were rejected in the main run
+    got_corrupt = [g for g in got if g % 2 == 0]
+    if got_corrupt != expect:
+        raise ToolError("binding self-test FAILED for %s: corrupted events %s, rejected %s" % (label, expect, got))
+    rep.extra.setdefault("binding_selftests", []).append({"corpus": label, "corrupted_events": len(expect), "rejected": len(got_corrupt)})
+    return len(expect)
